@@ -666,6 +666,9 @@ where
                 }
             }
 
+            // the attributes above may have changed: keep the recorded group length consistent
+            meta.update_information_group_length();
+
             Ok(FileDicomObject { meta, obj })
         } else {
             ReadUnrecognizedTransferSyntaxSnafu {
